@@ -15,10 +15,6 @@ import (
 	"github.com/sourcenetwork/defradb/internal/keys"
 )
 
-// the in-memory store of VersionedFetcher.Init is replaced by the transactional store model through a source patch in the
-// overlay copy of versioned.go (regenerated from the current file on every run)
-var verifMemStore func() corekv.TxnStore
-
 // VerifH_C03_ReadWithIndexedFilter — the whole time-travel read through the real VersionedFetcher.Init / Start / FetchNext
 // for a collection whose field has a secondary index that the planner hands to the fetcher: the document is returned
 // (the replayed state lives in a temporary store that holds no index entries).
@@ -32,8 +28,8 @@ func VerifH_C03_ReadWithIndexedFilter() {
 		vAssume(!bytes.Equal(e.commits[i].payload, client.CborNil))
 	}
 	e.build()
-	verifMemStore = func() corekv.TxnStore { return vNewStore() }
-	defer func() { verifMemStore = nil }()
+	VerifMemStore = func() corekv.TxnStore { return vNewStore() }
+	defer func() { VerifMemStore = nil }()
 	withIndex := vBool("planner-hands-over-an-index")
 	idx := immutable.None[client.IndexDescription]()
 	def := e.def
